@@ -8,6 +8,11 @@ import (
 	"ti/lexer"
 )
 
+// maxReadsPastEOS bounds how often a caller may keep asking for tokens once the
+// input is exhausted. Evaluators that loop until they see a closing token
+// ("end", ")", "|", ...) would otherwise spin forever on a truncated file.
+const maxReadsPastEOS = 1000
+
 func (p *Parser) getToken() {
 	if p.ungetFlg {
 		p.ungetFlg = false
@@ -152,6 +157,11 @@ func (p *Parser) Read() (*base.T, error) {
 		}
 
 	case base.EOS:
+		p.readsPastEOS++
+		if p.readsPastEOS > maxReadsPastEOS {
+			return nil, errors.New("unexpected end of input")
+		}
+
 		return nil, nil
 
 	default:
